@@ -241,8 +241,23 @@ class Body:
                 r = ("call", cal, args, (bi,))
         else:
             r = self.sym_rv(node["rv"], depth + 1, through_vars)
+            if through_vars == "pure" and name is not None and self._reads_mutable(r):
+                # a named variable computed from memory reachable through a `&mut` (`let bp = self.sp - n`): the place may
+                # be written after the variable got its value, so the variable is not replaced by the expression
+                r = ("var", name, l)
         self._cache[key] = r
         return r
+
+    def _reads_mutable(self, s):
+        for x in subterms(s):
+            if x[0] == "deref":
+                r = x[1]
+                while r[0] in ("field", "deref", "ref", "index", "downcast"):
+                    r = r[1]
+                l = r[2] if r[0] in ("var", "arg") and len(r) > 2 else (r[1] if r[0] == "tmp" else None)
+                if isinstance(l, int) and (self.local_ty(l) or "").lstrip().startswith("&mut"):
+                    return True
+        return False
 
     def sym_op(self, op, depth=0, through_vars=False):
         if op["k"] in ("copy", "move"):
